@@ -52,22 +52,22 @@ func bfDirected() []bfCase {
 	}
 	one := big.NewInt(1)
 	// ---- float64, subnormal range
-	add("subnormal64-exact", one, -1074)                 // smallest subnormal
-	add("subnormal64-exact", plus(p2(51), 1), -1074)     // on the grid
-	add("subnormal64-exact", plus(p2(52), -1), -1074)    // largest subnormal
-	add("subnormal64-exact", one, -1022)                 // smallest normal
-	add("subnormal64-exact", plus(p2(52), 1), -1074)     // first normals keep the 2^-1074 grid
-	add("subnormal64-inexact", one, -1100)               // flushed to 0
-	add("subnormal64-inexact", plus(p2(40), 1), -1100)   // rounded on the subnormal grid
-	add("subnormal64-inexact", one, -1075)               // half of the smallest subnormal: ties to even -> 0
-	add("subnormal64-inexact", big.NewInt(3), -1075)     // 1.5 * smallest subnormal -> rounded
-	add("subnormal64-inexact", one, -1076)               // below half
-	add("subnormal64-inexact", one, -2000)               // far below
-	add("subnormal64-inexact", plus(p2(52), 1), -1075)   // ~2^-1023 with a bit below the grid
-	add("subnormal64-inexact", plus(p2(53), -1), -1075)  // just below 2^-1022, 53 bits, finest bit below the grid
-	add("subnormal64-inexact", plus(p2(53), 1), -1075)   // just above 2^-1022, 54 bits
-	add("subnormal64-inexact", plus(p2(10), 1), -1084)   // 11 bits only, yet not on the grid (few bits are no excuse)
-	add("subnormal64-inexact", big.NewInt(5), -1077)     // 3 bits
+	add("subnormal64-exact", one, -1074)                // smallest subnormal
+	add("subnormal64-exact", plus(p2(51), 1), -1074)    // on the grid
+	add("subnormal64-exact", plus(p2(52), -1), -1074)   // largest subnormal
+	add("subnormal64-exact", one, -1022)                // smallest normal
+	add("subnormal64-exact", plus(p2(52), 1), -1074)    // first normals keep the 2^-1074 grid
+	add("subnormal64-inexact", one, -1100)              // flushed to 0
+	add("subnormal64-inexact", plus(p2(40), 1), -1100)  // rounded on the subnormal grid
+	add("subnormal64-inexact", one, -1075)              // half of the smallest subnormal: ties to even -> 0
+	add("subnormal64-inexact", big.NewInt(3), -1075)    // 1.5 * smallest subnormal -> rounded
+	add("subnormal64-inexact", one, -1076)              // below half
+	add("subnormal64-inexact", one, -2000)              // far below
+	add("subnormal64-inexact", plus(p2(52), 1), -1075)  // ~2^-1023 with a bit below the grid
+	add("subnormal64-inexact", plus(p2(53), -1), -1075) // just below 2^-1022, 53 bits, finest bit below the grid
+	add("subnormal64-inexact", plus(p2(53), 1), -1075)  // just above 2^-1022, 54 bits
+	add("subnormal64-inexact", plus(p2(10), 1), -1084)  // 11 bits only, yet not on the grid (few bits are no excuse)
+	add("subnormal64-inexact", big.NewInt(5), -1077)    // 3 bits
 	// ---- float64, wide mantissas
 	add("wide64-exact", plus(p2(53), -1), 0)
 	add("wide64-exact", plus(p2(53), -1), -500)
